@@ -135,7 +135,8 @@ RedFailed(e) ==
                ELSE (IF Normalised(e.res.i, e.res.f) THEN {} ELSE {"not-normalised"})
                     \cup (IF REq(RAdd(e.res.i, e.res.f), x) THEN {} ELSE {"not-the-exact-extremum"})
        [] fn = "ptp" ->
-            PhaseResult(e.res, RSub(Extreme(vals, 1), Extreme(vals, -1)), e.im, TRUE)
+            LET d == RSub(Extreme(vals, 1), Extreme(vals, -1))
+            IN IF InScope(d) THEN PhaseResult(e.res, d, e.im, TRUE) ELSE {"~out-of-scope"}
        [] fn = "sort" ->
             LET out == [k \in 1..Len(e.out) |-> RAdd(e.out[k].i, e.out[k].f)]
             IN IF e.t # "Phase" THEN {"not-a-Phase"}
